@@ -395,6 +395,7 @@ impl RADAU {
                 // LU decomp of real matrix E1
                 evals.lu += 1;
                 if lu_decomp(&mut e1, &mut ip1).is_err() {
+                    #[cfg(ivp_verif)] crate::verif_trace::emit("lu_sing", 1.0);
                     singular_count += 1;
                     if singular_count > 5 {
                         status = Status::SingularMatrix;
@@ -410,6 +411,7 @@ impl RADAU {
                 // LU decomp of complex matrix E2
                 evals.lu += 1;
                 if lu_decomp_complex(&mut e2r, &mut e2i, &mut ip2).is_err() {
+                    #[cfg(ivp_verif)] crate::verif_trace::emit("lu_sing", 2.0);
                     singular_count += 1;
                     if singular_count > 5 {
                         status = Status::SingularMatrix;
@@ -487,6 +489,7 @@ impl RADAU {
             let mut newt_iter = 0;
             'newton: loop {
                 if newt_iter >= max_newton {
+                    #[cfg(ivp_verif)] crate::verif_trace::emit("nw_exh", newt_iter as f64);
                     singular_count += 1;
                     if singular_count > 5 {
                         status = Status::SingularMatrix;
@@ -584,10 +587,12 @@ impl RADAU {
                             h *= hhfac;
                             steps.rejected += 1;
                             last = false;
+                            #[cfg(ivp_verif)] crate::verif_trace::emit("nw_slow", theta as f64);
                             break 'newton;
                         }
                     } else {
                         // Unexpected step rejection - continue with reduced step
+                        #[cfg(ivp_verif)] crate::verif_trace::emit("nw_div", theta as f64);
                         singular_count += 1;
                         if singular_count > 5 {
                             status = Status::SingularMatrix;
@@ -618,8 +623,10 @@ impl RADAU {
 
                 // Check Newton tolerance
                 if faccon * dyno > newton_tol {
+                    #[cfg(ivp_verif)] crate::verif_trace::emit("nw_cont", theta as f64);
                     continue 'newton;
                 } else {
+                    #[cfg(ivp_verif)] crate::verif_trace::emit("nw_conv", theta as f64);
                     break 'newton;
                 }
             }
@@ -653,6 +660,7 @@ impl RADAU {
             err = if err.is_nan() { Float::INFINITY } else { err.max(1e-10) };
 
             // Optional refinement on first/rejected step
+            #[cfg(ivp_verif)] crate::verif_trace::emit("err", err as f64);
             if err >= 1.0 && (first || reject) {
                 for i in 0..n {
                     cont[i] += y[i];
@@ -682,6 +690,7 @@ impl RADAU {
             quot = facr.max(facl.min(err.powf(0.25) / fac));
             hnew = h / quot;
 
+            #[cfg(ivp_verif)] crate::verif_trace::emit("err_final", err as f64);
             if err <= 1.0 {
                 // --- Step accepted ---
                 steps.accepted += 1;
@@ -751,6 +760,7 @@ impl RADAU {
                 }
 
                 if last {
+                    #[cfg(ivp_verif)] crate::verif_trace::emit("post_last", hnew as f64);
                     h = hnew;
                     status = Status::Success;
                     break 'main;
@@ -772,6 +782,7 @@ impl RADAU {
                 // sliver of a few ulp is not a step to take (it would only trip the step size guard)
                 let to_end = (xend - x).abs();
                 if to_end == 0.0 || to_end < 4.0 * Float::EPSILON * x.abs().max(xend.abs()) {
+                    #[cfg(ivp_verif)] crate::verif_trace::emit("post_arrive", hnew as f64);
                     h = hnew;
                     status = Status::Success;
                     break 'main;
@@ -779,6 +790,7 @@ impl RADAU {
 
                 // Sophisticated step size control
                 if (x + hnew / quot1 - xend) * posneg >= 0.0 {
+                    #[cfg(ivp_verif)] crate::verif_trace::emit("post_land", hnew as f64);
                     h = xend - x;
                     last = true;
                 } else {
@@ -786,9 +798,11 @@ impl RADAU {
                     hhfac = h;
                     if theta < thet && qt > quot1 && qt < quot2 {
                         call_decomp = false;
+                        #[cfg(ivp_verif)] crate::verif_trace::emit("post_fast", hnew as f64);
                         call_jac = false;
                         continue 'main;
                     }
+                    #[cfg(ivp_verif)] crate::verif_trace::emit("post_normal", hnew as f64);
                     h = hnew;
                 }
                 hhfac = h;
